@@ -73,6 +73,7 @@ BytesFails(e) ==
 
 Fails(e) == CASE e.ev = "rt" -> RtFails(e)
               [] e.ev = "bytes" -> BytesFails(e)
+              [] e.ev = "hang" -> <<e.prop \o ".hang">>    \* a call that never returned (recorded by the watchdog of the harness)
               [] OTHER -> <<"unknown-event">>
 
 Init == l = 1 /\ nfail = 0
